@@ -70,7 +70,7 @@ theorem sess_put (c : Cfg) (hdec0 : c.dec [0] = some .empty) {s : St} {t : Trie}
     have hr : s.root = .persisted (c.H [0]) := by rw [h.root]; rfl
     refine ⟨{ s with root := .leaf none (toNibs k) (newValue c.ver v),
                      death := rowKey [] (c.H [0]) :: s.death }, ?_, ?_⟩
-    · simp only [doPut, hr, insertAt, Env.resolve, load_empty c hdec0, afterInspect, Hd.cached,
+    · simp only [doPut, hr, insertAt, insertNode, Env.resolve, load_empty c hdec0, afterInspect, Hd.cached,
         Hd.asNew]
       rfl
     · refine ⟨h.db, ?_, fun e => absurd e hne⟩
@@ -93,7 +93,7 @@ theorem sess_del (c : Cfg) (hdec0 : c.dec [0] = some .empty) {s : St} {t : Trie}
     have hr : s.root = .persisted (c.H [0]) := by rw [h.root]; rfl
     refine ⟨{ s with root := .persisted (c.H [0]), rootHash := c.H [0],
                      death := rowKey [] (c.H [0]) :: s.death }, ?_, ?_⟩
-    · simp only [doDel, hr, removeAt, Env.resolve, load_empty c hdec0, afterDelete, Hd.cached]
+    · simp only [doDel, hr, removeAt, removeNode, Env.resolve, load_empty c hdec0, afterDelete, Hd.cached]
     · exact ⟨h.db, rfl, fun _ => rfl⟩
   · have hr : s.root = ofTrie c.ver t := by rw [h.root, rootOf, isNil_false_of_ne ht]; rfl
     obtain ⟨ch, hch⟩ := removeAt_ofTrie (c.env s) t ht hcan ((toNibs k).length + 1) [] (toNibs k)
